@@ -160,6 +160,29 @@ var envelopeCheck = &core.Check{Name: "c20/envelope", Quick: 1500, Thorough: 150
 		return fmt.Errorf("%s{%s, opcode %s}: MarshalJSON produced invalid JSON: %s", what, sumType, showOp(op), trunc(string(data)))
 	}
 	c.Note("json", trunc(string(data)))
+	// the bytes MarshalJSON hands out belong to the caller: converting other bodies afterwards does not change them
+	{
+		var direct []byte
+		var derr error
+		if out {
+			direct, derr = abi.ExtOutMsgBody{SumType: sumType, OpCode: op, Value: value}.MarshalJSON()
+		} else {
+			direct, derr = abi.InMsgBody{SumType: sumType, OpCode: op, Value: value}.MarshalJSON()
+		}
+		if derr == nil {
+			kept := string(direct)
+			other := boc.NewCell()
+			_ = other.WriteUint(0x0123456789abcdef, 64)
+			nine := uint32(9)
+			for i := 0; i < 3; i++ {
+				_, _ = abi.InMsgBody{SumType: abi.UnknownMsgOp, OpCode: &nine, Value: other}.MarshalJSON()
+				_, _ = abi.ExtOutMsgBody{SumType: abi.UnknownMsgOp, OpCode: &nine, Value: other}.MarshalJSON()
+			}
+			if string(direct) != kept {
+				return fmt.Errorf("%s: the bytes returned by MarshalJSON changed from %s to %s after other bodies were converted", what, trunc(kept), trunc(string(direct)))
+			}
+		}
+	}
 	if op != nil && *op == 0 {
 		c.Class("operation code 0")
 	}
